@@ -265,7 +265,7 @@ def tol_expr(c):
 def coq_case(cid, c, flag):
     """One evaluation: the first expansion is shared between expand_eps_t and the GeneratorSite model."""
     si = c["si"]
-    hyp = ("(if snap_hyps_b %s G0 %s %s %s then 1 else 0)" % (zl(c["D"]), v3l(c["off"]), v3l(c["x"]), v3l(c["ref"]))) if flag else "(-1)"
+    hyp = ("(if snap_hyps_tb T %s G0 %s %s %s then 1 else 0)" % (zl(c["D"]), v3l(c["off"]), v3l(c["x"]), v3l(c["ref"]))) if flag else "(-1)"
     return ("Eval vm_compute in (let G0 := G %d in let T := %s in let r := expand_eps_t T %s G0 %s %s in (777, %d, showz G0 r, "
             "showz G0 (expand_exact %s G0 %s %s), gshow G0 (generator_site_from_t T %s G0 %s %s r), %s)).\n"
             % (si, tol_expr(c), zl(c["D"]), v3l(c["off"]), v3l(c["x"]), cid, zl(c["D"]), v3l(c["off"]), v3l(c["x"]),
@@ -518,7 +518,8 @@ def process(ctx, settings_idx, do_model=True, do_uij=True):
     if do_model and cases:
         t0 = time.time()
         # hypotheses of the snap theorem: evaluated on inside cases of small groups (quadratic in the group order)
-        flags = [cid for cid, c in cases.items() if c["kind"] in ("inside", "inside+offset") and c.get("eps") is None and nops[c["si"]] <= 48 and not results[cid]["fragile"]]
+        flags = [cid for cid, c in cases.items() if c["kind"] in ("inside", "inside+offset", "eps1e-7-in", "eps1e-3-in", "eps1e-3-in+offset")
+                 and nops[c["si"]] <= 48 and not results[cid]["fragile"]]
         flags = flags[::(3 if ctx.tier == "quick" else 2)]
         # ExpandAsymmetricUnit calls that are cheap to evaluate in Coq as a whole
         groups = {}
